@@ -528,9 +528,10 @@ def _prior(u):
 
 # (name, [(label, value)]) — value semantics in row_kwargs
 def factors(tier):
-    pool = [("none", None), ("one", 1), ("poollike", "poollike")]
-    if tier == "thorough":
-        pool.append(("two_procs", 2))
+    # the same lattice in both tiers (quick: pairwise, thorough: 3-wise).  "every combination of valid option values runs to
+    # completion" quantifies over run()'s own arguments too: save_every, resume_state_path, progress are factors like the
+    # constructor options, and an integer pool of real worker processes is a value like any other
+    pool = [("none", None), ("one", 1), ("two_procs", 2), ("poollike", "poollike")]
     return [
         ("kernel", [("tpcn", "tpcn"), ("rwm", "rwm")]),
         ("resample", [("mult", "mult"), ("syst", "syst")]),
@@ -544,7 +545,9 @@ def factors(tier):
         ("likelihood", [("scalar", "scalar"), ("vectorize", "vec"), ("blobs", "blobs")]),
         ("boundary", [("none", (None, None)), ("periodic0", ([0], None)), ("reflective0", (None, [0])), ("both", ([0], [1]))]),
         ("pool", pool),
-        ("save_every", [("none", None), ("2", 2)]),
+        ("save_every", [("none", None), ("1", 1), ("2", 2)]),
+        ("resume", [("fresh", False), ("from_checkpoint", True)]),
+        ("progress", [("off", False), ("on", True)]),
         ("n_dim", [("2", 2), ("3", 3)]),
         ("n_particles", [("8", 8), ("16", 16)]),
     ]
@@ -595,6 +598,26 @@ def covering_array(levels, t):
     return rows
 
 
+# options whose EFFECT depends on each other (a pool is only used by a non-vectorised likelihood; a checkpoint pickles whatever
+# the pool machinery left on the sampler; a resumed run starts from such a checkpoint): their full factorial is executed on top
+# of the pairwise array, the remaining options filled in from a deterministic stream
+BLOCK_FACTORS = ["pool", "save_every", "likelihood", "resume"]
+
+
+def interaction_block(fs):
+    names = [n for n, _ in fs]
+    cols = [names.index(n) for n in BLOCK_FACTORS]
+    levels = [len(vs) for _, vs in fs]
+    rng = random.Random(424242)
+    rows = []
+    for combo in itertools.product(*[range(levels[c]) for c in cols]):
+        row = [rng.randrange(levels[i]) for i in range(len(fs))]
+        for c, v in zip(cols, combo):
+            row[c] = v
+        rows.append(row)
+    return cols, rows
+
+
 def covers(levels, rows, t):
     for cols in itertools.combinations(range(len(levels)), t):
         seen = {tuple(r[c] for c in cols) for r in rows}
@@ -614,7 +637,7 @@ def arrays():
     import json
     cache = os.path.join(common.LEAN, ".lake", "c18_covering_cache.json")
     fq, ft = factors("quick"), factors("thorough")
-    key = common.digest([[(n, [l for l, _ in vs]) for n, vs in fq], [(n, [l for l, _ in vs]) for n, vs in ft], "v1"])
+    key = common.digest([[(n, [l for l, _ in vs]) for n, vs in fq], [(n, [l for l, _ in vs]) for n, vs in ft], "v2"])
     data = None
     try:
         with open(cache) as fh:
@@ -659,6 +682,9 @@ def generate_covering():
             "/-- thorough tier -/",
             f"def tripleFactors : List (String × List String) := {fac(ft)}", "",
             f"def tripleRows : List (List Nat) := {rows(triple)}", "",
+            "/-- interaction block (both tiers): the columns of the mutually dependent options and the executed rows -/",
+            f"def blockCols : List Nat := [{', '.join(map(str, interaction_block(fq)[0]))}]", "",
+            f"def blockRows : List (List Nat) := {rows(interaction_block(fq)[1])}", "",
             "end Gen.Covering", ""])
         changed = common.write_if_changed(os.path.join(common.GEN, "Covering.lean"), text)
         return ("C18-covering", "ok", f"{'re' if changed else ''}generated Gen/Covering.lean ({len(pair)} pairwise rows, "
@@ -722,8 +748,20 @@ def run_row(args):
         np.random.seed(seed)
         with warnings.catch_warnings(), contextlib.redirect_stdout(io.StringIO()), contextlib.redirect_stderr(io.StringIO()):
             warnings.simplefilter("ignore")
+            resume_path = None
+            if vals.get("resume"):
+                # a first, shorter run of the same configuration writes checkpoints; the run under test continues from the
+                # last periodic one (the pool, if any, is a fresh object: pools are never part of a checkpoint)
+                kw0 = dict(kw, output_label="first")
+                if vals["pool"] == "poollike":
+                    kw0["pool"] = PoolLike()
+                s0 = tempest.Sampler(_prior, like, vals["n_dim"], **kw0)
+                s0.run(n_total=max(8, n_total // 3), progress=False, save_every=1)
+                periodic = sorted((f for f in os.listdir(tmp) if f.startswith("first_") and f != "first_final.state"),
+                                  key=lambda f: int(f[len("first_"):-len(".state")]))
+                resume_path = os.path.join(tmp, periodic[-1] if periodic else "first_final.state")
             s = tempest.Sampler(_prior, like, vals["n_dim"], **kw)
-            s.run(n_total=n_total, progress=False, save_every=vals["save_every"])
+            s.run(n_total=n_total, progress=bool(vals.get("progress")), save_every=vals["save_every"], resume_state_path=resume_path)
             st = s.state
             beta = float(st.get_current("beta"))
             logw, _ = st.compute_logw_and_logz(1.0)
@@ -783,15 +821,19 @@ def run_covering(tier, drv):
     rng = common.rng_for("C18.rows")
     seeds = [rng.randrange(2 ** 31) for _ in range(2 if tier == "quick" else 1)]
     n_total = 48
-    lines = [op_line(row_model_cfg(row_values(fs, r))) for r in rows]
+    block = [r for r in interaction_block(fs)[1] if r not in rows]
+    c.stats["interaction_block_rows"] = len(block)
+    all_rows = rows + [r for r in interaction_block(fs)[1] if r not in rows]
+    lines = [op_line(row_model_cfg(row_values(fs, r))) for r in all_rows]
     answers = drv.batch(lines)
     model_ok = {}
-    for r, line, ans in zip(rows, lines, answers):
+    for r, line, ans in zip(all_rows, lines, answers):
         model_ok[tuple(r)] = ans.startswith("accept")
         if not ans.startswith("accept"):
             c.disagree(input=line, why="a row of the valid option lattice is not accepted by the model", model=ans, row=row_label(fs, r))
     pending = []
-    for row, vals, res in execute_rows(fs, rows, seeds, n_total):
+    executed = execute_rows(fs, rows, seeds, n_total) + execute_rows(fs, block, seeds[:1], n_total)
+    for row, vals, res in executed:
         label = row_label(fs, row)
         c.case([label, res["seed"]], True)
         c.count("rows_run")
@@ -915,21 +957,14 @@ def search(tier, hints):
             c18_path.search(_self(), tier, hints, add, limit=5 - len(found))
         except Exception:  # noqa
             traceback.print_exc()
-    # 2. the one-factor invalid values and pairs, directly as the property oracle
-    if len(found) < 5:
-        for kind, cfg in gen_cases(tier):
-            msg = oracle_invalid(cfg)
-            if msg:
-                add(msg, cfg)
-                if len(found) >= 5:
-                    break
-    # 3. the covering rows as the oracle for "valid => completes"
+    # 2. the covering rows (constructor options x run() arguments) as the oracle for "valid => completes"
     if len(found) < 5:
         try:
             key = "pair" if tier == "quick" else "triple"
             fs, rows = arrays()[key]
             rng = common.rng_for("C18.search")
             seed = rng.randrange(2 ** 31)
+            rows = interaction_block(fs)[1] + [r for r in rows if r not in interaction_block(fs)[1]]
             for row, vals, res in execute_rows(fs, rows, [seed], 48):
                 if not res["ok"] and not attribute(vals, res):
                     add("valid configuration does not run to completion: " + res["what"], row=row_label(fs, row), row_idx=list(row),
@@ -938,6 +973,14 @@ def search(tier, hints):
                         break
         except Exception:  # noqa
             traceback.print_exc()
+    # 3. the one-factor invalid values and pairs, directly as the property oracle
+    if len(found) < 5:
+        for kind, cfg in gen_cases(tier):
+            msg = oracle_invalid(cfg)
+            if msg:
+                add(msg, cfg)
+                if len(found) >= 5:
+                    break
     return found
 
 
